@@ -490,13 +490,16 @@ func (p *Parser) checkSameImport(filenameIndex retrievedListIndex, first, second
 		ver2 = second.filename[i+1:]
 	}
 
-	// treat master/main/develop as default
+	// treat master/main/develop as default, and HEAD: that is what the retriever reports for a file that was imported
+	// without a version, and what the relative imports of such a file inherit. Without it a file of a remote
+	// repository that is imported directly (no version) and by another file of that repository (inherits HEAD) was
+	// rejected as "imported as different versions: '' and 'HEAD'".
 	switch ver1 {
-	case "master", "main", "develop":
+	case "master", "main", "develop", "HEAD":
 		ver1 = ""
 	}
 	switch ver2 {
-	case "master", "main", "develop":
+	case "master", "main", "develop", "HEAD":
 		ver2 = ""
 	}
 
